@@ -60,20 +60,20 @@ def beta(ctx, x, y):
 
 @defun
 def binomial(ctx, n, k):
-    n1 = ctx.fadd(n, 1, prec=2*ctx.prec)
-    k1 = ctx.fadd(k, 1, prec=2*ctx.prec)
-    nk1 = ctx.fsub(n1, k, prec=2*ctx.prec)
+    n1 = ctx.fadd(n, 1, exact=True)
+    k1 = ctx.fadd(k, 1, exact=True)
+    nk1 = ctx.fsub(n1, k, exact=True)
     return ctx.gammaprod([n1], [k1, nk1])
 
 @defun
 def rf(ctx, x, n):
-    xn = ctx.fadd(x, n, prec=2*ctx.prec)
+    xn = ctx.fadd(x, n, exact=True)
     return ctx.gammaprod([xn], [x])
 
 @defun
 def ff(ctx, x, n):
-    x1 = ctx.fadd(x, 1, prec=2*ctx.prec)
-    xn1 = ctx.fadd(ctx.fsub(x, n, prec=2*ctx.prec), 1, prec=2*ctx.prec)
+    x1 = ctx.fadd(x, 1, exact=True)
+    xn1 = ctx.fadd(ctx.fsub(x, n, exact=True), 1, exact=True)
     return ctx.gammaprod([x1], [xn1])
 
 @defun_wrapped
